@@ -325,6 +325,9 @@ mut("c19_catshuffle_drops_dupe", ["C19"], T,
 mut("c19_false_pos_uniform_category", ["C19"], T,
     ("""                category = np.random.choice(category_weights.keys(), p=category_weights.values())""",
      """                category = np.random.choice(list(self._categories) + ["other"])"""), note="false positives may carry a foreign label")
+mut("c19_revert_shift_precision_fix", ["C19"], T,
+    ("""                while end_seg - start_seg <= SEGMENT_PRECISION:""", """                while start_seg >= end_seg:"""),
+    note="shifted segments shorter than the segment precision are passed to add() again (needs ~1e7 shifted units: thorough tier)")
 # ---------------- C20 ----------------
 mut("c20_revert_numerical", ["C20"], L, ("""        elif args.cat_dissim == "numerical":""", """        elif args.cat_dissim == "ordinal":"""))
 mut("c20_ignore_empty_delta", ["C20"], L, ("""                                                  delta_empty=args.empty_delta,\n""", ""))
